@@ -49,6 +49,17 @@ def _instances(tier, seed):
         a = np.array([[1, 0], [0, 1]])
         out.append((Template([TemplatePattern((tb,), AffineTransform(np.array([[0], [1]]), np.zeros(2, dtype=int)))]),
                     Schedule([SchedulePattern((b0, b1), AffineTransform(a, np.zeros(2, dtype=int)))])))
+    # strided accesses (coefficients with a common factor): a downsampling copy in[2i] -> out[i] and a stride-2 window
+    # in[2x + k] * w[k] -> out[x]
+    for b, tb in itertools.product((2, 4, 6), (2, None)):
+        out.append((Template([TemplatePattern((tb,), AffineTransform(np.array([[1]]), np.zeros(1, dtype=int))) for _ in range(2)]),
+                    Schedule([SchedulePattern((b,), AffineTransform(np.array([[2]]), np.zeros(1, dtype=int))),
+                              SchedulePattern((b,), AffineTransform(np.array([[1]]), np.zeros(1, dtype=int)))])))
+    for bx, bk, tb in itertools.product((2, 4), (2, 3), ((2, 2), (None, None))):
+        mats = [np.array([[2, 1]]), np.array([[0, 1]]), np.array([[1, 0]])]
+        tm = [np.array([[1, 1]]), np.array([[0, 1]]), np.array([[1, 0]])]
+        out.append((Template(TemplatePattern(tb, AffineTransform(a, np.zeros(1, dtype=int))) for a in tm),
+                    Schedule(SchedulePattern((bx, bk), AffineTransform(a, np.zeros(1, dtype=int))) for a in mats)))
     return out
 
 
@@ -138,7 +149,11 @@ def template_matches(tier="quick", seed=0):
         for A in A_s:
             for B in rnd.sample(A_s, min(len(A_s), 12)):
                 cases += 1
-                got = bool(same_nonzero_singular_vectors(np.array(A), np.array(B)))
+                Aa, Ba = np.array(A), np.array(B)
+                got = bool(same_nonzero_singular_vectors(Aa, Ba))
+                if (Aa.tolist() != A or Ba.tolist() != B) and len(viol) < 5:
+                    # frame: the scheduler hands in VIEWS of the access matrices of the schedule it is building
+                    viol.append(dict(clause="C03/C16 frame: same_nonzero_singular_vectors leaves its arguments unchanged", input=f"{A} vs {B}", observed=f"{Aa.tolist()} vs {Ba.tolist()}"))
                 exp = _same_rowspace(A, B)
                 if got != exp and len(viol) < 5:
                     viol.append(dict(clause="C16: same_nonzero_singular_vectors <=> equal row spaces over Q", input=f"{A} vs {B}", expected=exp, observed=got))
@@ -154,6 +169,9 @@ def template_matches(tier="quick", seed=0):
                 got = bool(tp.matches(sp))
             except Exception as e:  # noqa
                 got = f"{type(e).__name__}"
+            if (tp.pattern.A.tolist() != T or sp.pattern.A.tolist() != S) and len(viol) < 5:
+                viol.append(dict(clause="C03/C16 frame: TemplatePattern.matches leaves template and schedule unchanged", input=f"template {T} schedule {S}",
+                                 observed=f"template {tp.pattern.A.tolist()} schedule {sp.pattern.A.tolist()}"))
             if sd < td:
                 exp = False
             else:
